@@ -653,7 +653,108 @@ func ZZ_C11_callbacks() {
 	e.Define("see", func(v int64) { seen = v })
 	e.Define("applyV", func(f func(...int64) int64) int64 { got = f(x, y, 7); return got })
 	e.Define("applySV", func(f func(string, ...int64) int64) int64 { got = f("s", x, y); return got })
-	switch zz.Choose(19) {
+	switch zz.Choose(20) {
+	case 19:
+		// an error inside a callback surfaces as an error of the enclosing call for
+		// every result list of the func type - also one that ends in `error`, where
+		// a host iterator written in Go would otherwise swallow it (filepath.Walk
+		// style: keeps going, counts failures) - and nothing runs after it: no
+		// further callback invocation, no statement after the call
+		var calls, after int64
+		e.Define("after", func() { after++ })
+		hosts := []struct{ name, call string }{
+			{"func()", "eachVoid"}, {"func(int64) int64", "eachInt"}, {"func(int64) error", "eachErr"}, {"func(int64) (int64, error)", "eachIntErr"},
+			{"func(int64) interface{}", "eachAny"}, {"func(int64) bool", "eachBool"}, {"func(...int64) error", "eachVarErr"}, {"func(int64) (string, int64)", "eachPair"},
+		}
+		e.Define("eachVoid", func(f func()) int64 {
+			for i := 0; i < 3; i++ {
+				calls++
+				f()
+			}
+			return calls
+		})
+		e.Define("eachInt", func(f func(int64) int64) int64 {
+			for i := 0; i < 3; i++ {
+				calls++
+				f(x)
+			}
+			return calls
+		})
+		e.Define("eachErr", func(f func(int64) error) int64 {
+			failed := int64(0)
+			for i := 0; i < 3; i++ {
+				calls++
+				if f(x) != nil {
+					failed++
+				}
+			}
+			return failed
+		})
+		e.Define("eachIntErr", func(f func(int64) (int64, error)) int64 {
+			for i := 0; i < 3; i++ {
+				calls++
+				if _, err := f(x); err != nil {
+					continue
+				}
+			}
+			return calls
+		})
+		e.Define("eachAny", func(f func(int64) interface{}) int64 {
+			for i := 0; i < 3; i++ {
+				calls++
+				f(x)
+			}
+			return calls
+		})
+		e.Define("eachBool", func(f func(int64) bool) int64 {
+			for i := 0; i < 3; i++ {
+				calls++
+				f(x)
+			}
+			return calls
+		})
+		e.Define("eachVarErr", func(f func(...int64) error) int64 {
+			for i := 0; i < 3; i++ {
+				calls++
+				_ = f(x, y)
+			}
+			return calls
+		})
+		e.Define("eachPair", func(f func(int64) (string, int64)) int64 {
+			for i := 0; i < 3; i++ {
+				calls++
+				f(x)
+			}
+			return calls
+		})
+		fails := []struct{ name, body string }{
+			{"throw", "throw \"inside\""}, {"undefined-name", "undefined_name"}, {"failing-operator", "1 % 0"}, {"failing-nested-call", "func() { throw \"deep\" }()"},
+			{"throw-after-a-caught-one", "try { throw \"a\" } catch e { }; throw \"b\""}, {"rethrow", "try { throw \"a\" } catch e { throw e }"},
+		}
+		h := hosts[zz.Choose(len(hosts))]
+		fl := fails[zz.Choose(len(fails))]
+		params := "a"
+		if h.name == "func()" {
+			params = ""
+		}
+		if h.name == "func(...int64) error" {
+			params = "a..."
+		}
+		caught := zz.Choose(2) == 1
+		src := h.call + "(func(" + params + ") { " + fl.body + " }); after()"
+		if caught {
+			src = "r = 0; try { " + src + " } catch e { r = 1 }; r"
+		}
+		id := h.name + "/" + fl.name + []string{"/to-the-host", "/to-a-try"}[zz.Ite(caught, 1, 0)]
+		r, err := Execute(e, nil, src)
+		if caught {
+			ri, _ := r.(int64)
+			zz.Assertf(err == nil && ri == 1, "C11.callback/error-inside-reaches-the-nearest-try/"+id, src)
+		} else {
+			zz.Assertf(err != nil, "C11.callback/error-inside-surfaces-as-error-of-the-call/"+id, src)
+		}
+		zz.Assertf(calls == 1, "C11.callback/no-invocation-after-the-failing-one/"+id, src)
+		zz.Assertf(after == 0, "C11.callback/no-statement-after-the-failing-call/"+id, src)
 	case 14:
 		r, err := Execute(e, nil, "applyV(func(a...) { return len(a) * 1000 + a[0] - a[1] })")
 		ri, ok := r.(int64)
